@@ -179,6 +179,13 @@ def handleSeq (args impl : List String) : Verdict :=
           | ["force", d, b] => match d.toInt?, b.toNat? with
             | some d, some b => some (Ops.forceDuration d (b != 0) ys)
             | _, _ => none
+          | ["swap"] =>
+            -- the first and the last cue exchange their times (a re-timing by hand between two calls)
+            match ys, ys.getLast? with
+            | a :: rest, some b =>
+              if rest.isEmpty then some ys else
+              some ({ a with startAt := b.startAt, endAt := b.endAt } :: rest.dropLast ++ [{ b with startAt := a.startAt, endAt := a.endAt }])
+            | _, _ => some ys
           | _ => (applyOp ys [] op).map (·.1)
       match (opsTok.splitOn ",").foldl step (some xs) with
       | some m => compare (encItems m) (" ".intercalate impl) fun _ => false
